@@ -584,6 +584,13 @@ def run(ctx):
             f()
         except Unrecognised as e:
             ctx.unrecognised(e.rule if e.rule.startswith("C06") else "C06." + e.rule, e.msg, e.fn, e.line)
+    # range level, necessary conditions: the run-length passes close / continue / open runs as the template demands and
+    # the leftover pass emits every leftover combo (an absent pair swallowed by a run, or a dropped run, breaks the round trip)
+    try:
+        from rules import runpass
+        runpass.run_rules(ctx, F, "C06")
+    except Unrecognised as e:
+        ctx.unrecognised("C06.run-merging", e.msg, e.fn, e.line)
     ctx.assume("tokens are well formed (ranks ordered as the notation requires, the two cards of a card pair differ): the parser's order / distinctness guards are the token's domain")
     ctx.assume("f32 Display prints the shortest decimal that parses back to the same bits, without exponent, and f32::from_str inverts it (std guarantee)")
     ctx.assume("that the emitted token list denotes exactly the range is not decided (run merging and leftovers are runtime behaviour)")
